@@ -19,6 +19,11 @@ class IterVal:
     pass
 
 
+vlen = z3.RecFunction('vlen', VList, I)
+_l = z3.Const('l!vlen', VList)
+z3.RecAddDefinition(vlen, [_l], z3.If(VList.is_Nil(_l), z3.IntVal(0), 1 + vlen(VList.tl(_l))))
+
+
 class RangeIter(IterVal):
     def __init__(self, lo, hi):
         self.lo, self.hi = lo, hi
@@ -223,7 +228,10 @@ class CallsMixin:
         return pick
 
     def list_len(self, ref):
-        return z3.Select(self.field('list.len'), Value.a(ref))
+        n = z3.Select(self.field('list.len'), Value.a(ref))
+        if not z3.is_int_value(z3.simplify(n)):
+            self.assume(n >= 0)     # heap typing invariant: list lengths are non-negative
+        return n
 
     def list_arr(self, ref):
         return z3.Select(self.field('list.items'), Value.a(ref))
@@ -900,11 +908,17 @@ class CallsMixin:
         if self.old is None:
             raise OutOfSubset('old() outside postcondition')
         saved = self.heap, self.alloc
+        fr = self.frames[-1]
+        saved_env = fr.env
         self.heap, self.alloc = dict(self.old.heap), self.old.alloc
+        fr.env = dict(fr.env)
+        fr.env.update(self.old.env)
+        saved_bound = self.bound
         try:
             return self.ev(node.args[0])
         finally:
             self.heap, self.alloc = saved
+            fr.env = saved_env
 
     def sp_implies(self, node):
         return z3.Implies(self.truth(self.ev(node.args[0])), self.truth(self.ev(node.args[1])))
@@ -998,6 +1012,13 @@ class CallsMixin:
         v = self.val(self.ev(node.args[0]))
         return z3.And(Value.is_VRef(v), Value.a(v) >= 0, Value.a(v) < self.alloc)
 
+    def sp_div(self, node):
+        """SMT-LIB integer division (equals Python's // whenever the divisor is positive)."""
+        return VInt(self.as_int(self.ev(node.args[0])) / self.as_int(self.ev(node.args[1])))
+
+    def sp_mod(self, node):
+        return VInt(self.as_int(self.ev(node.args[0])) % self.as_int(self.ev(node.args[1])))
+
     def sp_raw(self, node):
         """raw("z3-python expression") escape hatch is deliberately not provided."""
         raise OutOfSubset('raw')
@@ -1037,7 +1058,7 @@ class CallsMixin:
             kind = self.ref_kind(x, ['list', 'deque', 'dict', 'set'] +
                                  [k.split('::')[1].split('.')[0] for k in self.find_method('__len__')])
             if kind in ('list', 'deque'):
-                return VInt(z3.Select(self.field('list.len'), a))
+                return VInt(self.list_len(x))
             if kind in ('dict', 'set'):
                 return VInt(z3.Select(self.field('dict.n'), a))
             if kind is not None:
@@ -1264,6 +1285,20 @@ class CallsMixin:
         py = fv.py
         if isinstance(py, functools.partial):
             raise OutOfSubset('call of partial')
+        owner = getattr(py, '__self__', None)
+        mname = getattr(py, '__name__', None)
+        if isinstance(owner, dict) and mname == 'get':
+            k = self.val(args[0])
+            r = self.val(args[1]) if len(args) > 1 else VNone
+            for key in reversed(list(owner)):
+                r = z3.If(self.py_eq(k, lift(key)), self.const_val(owner[key]), r)
+            return z3.simplify(r)
+        if isinstance(owner, dict) and mname in ('items', 'keys', 'values'):
+            if mname == 'items':
+                return StaticIter([VTup([lift(k), self.const_val(v)]) for k, v in owner.items()])
+            if mname == 'keys':
+                return StaticIter([lift(k) for k in owner])
+            return StaticIter([self.const_val(v) for v in owner.values()])
         raise OutOfSubset('call of constant %r' % (fv,))
 
     # str methods -----------------------------------------------------------------------------
